@@ -10,5 +10,6 @@ func main() {
 		"c36":      c36,
 		"c36probe": c36probe,
 		"c08":      c08,
+		"c11dict":  c11dict,
 	})
 }
